@@ -1065,6 +1065,10 @@ def judge_adf(text, a, queries, sort="none", backend=None):
                 if memo != want or naive != want:
                     bad.append(("paths:wrong", "path counts of handle %d: count cache / memoisation gives %s, plain call gives %s, the diagram has %s (to bottom / to top)" % (h, memo, naive, want)))
                     break
+        elif kind == "panicflow":
+            info.setdefault("panicflow", []).append("panicked" if "outcome=panicked" in r else "returned")
+            if "same=1" not in r:
+                bad.append(("panicflow", "after a caught panic of %s on an imported copy and the repair step, the same object answers differently from a repaired copy: %s" % (" ".join(q[1:]), r)))
         elif kind == "roundtrip":
             if "nodes_equal=1" not in r or "ac_equal=1" not in r:
                 bad.append(("roundtrip:numbering", "round trip (%s) does not reproduce the node numbering / roots: %s" % (q[1], r)))
@@ -1073,7 +1077,7 @@ def judge_adf(text, a, queries, sort="none", backend=None):
     # the same query asked again later (after round trips or other calls) must give the same answer
     seen = {}
     for k, q in enumerate(queries):
-        if q[0] in ("roundtrip", "table", "validate", "audit", "ops", "paths"):
+        if q[0] in ("roundtrip", "table", "validate", "audit", "ops", "paths", "panicflow"):
             continue
         key = tuple(q)
         r = ans.get(k)
@@ -1129,6 +1133,9 @@ def run_adf_check(ck, res, replay, pid, queries_of, n_quick, n_thorough, nmax_q=
         for key, what in bad:
             res.violations.append({"key": "adf:" + key, "what": what, "body": body, "meta": meta, "observed": a, "model": b})
         if info:
+            for oc in info.get("panicflow", []):
+                pf = res.extra.setdefault("caught_panic_flows", {})
+                pf[oc] = pf.get(oc, 0) + 1
             dist[info["n"]] = dist.get(info["n"], 0) + 1
             g = info.get("grounded")
             if (g is None or "u" in g) and info["n"] >= 2:
@@ -1140,13 +1147,13 @@ def run_adf_check(ck, res, replay, pid, queries_of, n_quick, n_thorough, nmax_q=
         strip = lambda ls: ["NOANSWER" if (l.startswith("TIMEOUT") or l.endswith("NONTERMINATION")) else l for l in strip0(ls)]
         if a and any(l.startswith("TIMEOUT") for l in a) and b and any(l.endswith("NONTERMINATION") for l in b):
             continue
-        strip0 = lambda ls: [re.sub(r"^(q\d+ grounded \S*) .*$", r"\1", l) for l in (ls or []) if not l.startswith("ac ") and " table " not in l]
+        strip0 = lambda ls: [re.sub(r"^(q\d+ panicflow same=1) outcome=\w+$", r"\1", re.sub(r"^(q\d+ grounded \S*) .*$", r"\1", l)) for l in (ls or []) if not l.startswith("ac ") and " table " not in l]
         if strip(a) != strip(b):
             mism += 1
             if mism <= 5:
                 res.broken.append(("correspondence", "ADF case %s: implementation and model differ" % cid,
                                    json.dumps({"text": meta["text"], "impl": a, "model": b})[:2500]))
-        elif a != b:
+        elif [re.sub(r" outcome=\w+$", "", l) for l in a or []] != b:
             res.extra["handle_level_differences"] = res.extra.get("handle_level_differences", 0) + 1
     res.cov["evaluations"] = len(cf.meta)
     res.cov["distinct_nontrivial"] = len(nontriv)
@@ -1269,7 +1276,8 @@ def check_C12(ck, res, replay):
             progs.append((body, {"nvars": nv}))
         for text, origin in adf_case_stream(res, rng, 80 if quick else 2500, 7, with_tt2=False):
             qs = [["grounded"], ["complete"], ["stable"], ["stmca"], ["stmng", "MinModMinPathsMaxVarImp"], ["counts", "0"], ["paths"],
-                  ["roundtrip", "json"], ["paths"], ["depths"], ["ops", rand_ops(rng, 1)], ["paths"], ["roundtrip", "live"], ["ops", rand_ops(rng, 1)], ["grounded"], ["stmcb"], ["table"]]
+                  ["roundtrip", "json"], ["paths"], ["depths"], ["ops", rand_ops(rng, 1)], ["paths"], ["roundtrip", "live"], ["ops", rand_ops(rng, 1)], ["grounded"], ["stmcb"],
+                  ["panicflow"] + rng.pick([["grounded"], ["complete"], ["stable"], ["stmca"], ["stmng", "Simple"], ["counts", "0"], ["counts", "1"], ["facets"], ["ops", rand_ops(rng, 1)]]), ["table"]]
             adfs.append((["text " + gen.hexs(text), "sort none"] + ["q " + " ".join(q) for q in qs], {"text": text, "queries": qs}))
     outs = {}
     models = {}
@@ -1291,7 +1299,7 @@ def check_C12(ck, res, replay):
         for l in (lines or []):
             if " table " in l or l.startswith("table") or l.startswith("ac "):
                 continue
-            out.append(l)
+            out.append(re.sub(r"^(q\d+ panicflow same=1) outcome=\w+$", r"\1", l))     # which feature sets panic before the repair is not part of the answer
         return out
     memo_models = {}
     for cid, (kind, body, meta) in last_cf.meta.items():
@@ -1314,6 +1322,14 @@ def check_C12(ck, res, replay):
             fa_m = [l for l in norm(a, cfg) if not (cfg.startswith("a1") and l.split()[0] in drop)]
             if len(body) > 8:
                 nontriv.add((tag, tuple(body)))
+            for l in a or []:
+                if " panicflow " in l:
+                    oc = res.extra.setdefault("caught_panic_flows", {}).setdefault(tag, {})
+                    k = "panicked" if "outcome=panicked" in l else "returned"
+                    oc[k] = oc.get(k, 0) + 1
+                    if "same=1" not in l:
+                        res.violations.append({"key": "cfg:panicflow:%s" % cfg.split("v")[0], "what": "feature set %s: after a caught panic on an imported copy and the repair step the same object answers differently from a repaired copy: %s" % (tag, l),
+                                               "kind": kind, "body": body, "meta": meta, "observed": a, "feature_set": feats})
             if fa != fd:
                 diff = [(x, y) for x, y in zip(fa, fd) if x != y][:1]
                 what = "feature set %s answers differently from the default build: %s" % (tag, diff)
@@ -1559,6 +1575,9 @@ def c14_queries(rng, b):
     qs = pre + [["acs"], ["depths"], ["table"], ["roundtrip", how], ["acs"], ["depths"], ["table"]] + after + sem
     if life == 2:
         qs += [["roundtrip", rng.pick(["json", "nodes", "live"])], ["table"], ["audit"], ["ops", rand_ops(rng, 1)], ["paths"]] + sem
+    if rng.chance(1, 4):
+        # an import that is used before it is repaired: the call panics, is caught, the same object is repaired and used again
+        qs.insert(rng.below(len(qs) + 1), ["panicflow"] + rng.pick(sem + [["ops", rand_ops(rng, 1)], ["facets"]]))
     return qs
 
 
@@ -1649,6 +1668,8 @@ def c11_queries_for(n):
                 qs.append(["ops", rand_ops(rng, n)])
             elif rng.chance(1, 2):
                 qs.append(["roundtrip", "live"])     # the repair step is a public call like any other: applied to the live object
+            elif rng.chance(1, 2):
+                qs.append(["panicflow"] + rng.pick(pool[:9] + [["facets"], ["counts", "0"], ["ops", rand_ops(rng, n)]]))     # a call that panics and is caught
             else:
                 qs.append(["audit"])
         qs.append(["audit"])
@@ -1661,7 +1682,7 @@ def c11_queries_for(n):
 def check_C11(ck, res, replay):
     # statement count is not known before generation: operand numbers are taken modulo the register file, variables modulo 1 (var 0 always exists)
     run_adf_check(ck, res, replay, "C11", c11_queries_for(1), 600, 10000, nmax_q=7, nmax_t=9, backends=("native", "hyb0", "hyb1"), seeds=True, case_timeout=15000,
-                  ties=("TieLeaf", "TieMoreModels", "TieFlagRepair"), rerun=True)
+                  ties=("TieLeaf", "TieMoreModels", "TieFlagRepair", "TieAc"), rerun=True)
     return ck.finish(res, level_of(res.pid), ASSUME_COMMON + ["HashMap iteration order is never observable through the modelled API"])
 
 
